@@ -1,13 +1,12 @@
 /-
-C37 — structured log lines are valid JSON.  Property theorems.
+C37 — structured log lines are valid JSON.  Property theorems (model = the `encoding/json` string
+encoding the code uses since /repo b0a84c7).
 
-Reading guide:
-* the property, for a quoting routine `q`:        `LogLineJSON_full q`   (def)
-* it holds for `encoding/json` string encoding:   `full_jsonMarshal`     (all messages, all byte strings)
-* it is FALSE for `strconv.Quote` (pinned tree):  `strconvQuote_witness` (message `"\a"`; also `\x01`, `\xff`)
-* `strconv.Quote` outside the decidable class:    `strconvQuote_partial`
-* whatever the current source calls (Gen/C37):    `current_stdout`, `current_file`
-* spec adequacy ("exactly one line"):             `parseLine_one_line`
+* the property:                                    `LogLineJSON_full` (def), **`log_line_json`** (proved for
+  every timestamp text, level and message byte string, incl. control bytes and invalid UTF-8)
+* what the current source calls (Gen/C37):         `tie_stdout`, `tie_file`
+* spec adequacy ("exactly one line"):              `parseLine_one_line`
+* regressions of the pre-fix routine (`strconv.Quote`: `\a`, `\x01`, `\xff` are not JSON): decided examples
 -/
 import MtxVerif.Model.C37
 import MtxVerif.Gen.C37
@@ -236,41 +235,7 @@ theorem dec_jsonEscASCII {c : UInt8} (hc : c.toNat < 0x80) (X : Bytes) :
                   · intro e; subst e; exact h1 (Or.inr (by decide))
                 exact dec_plain_cons hp X
 
-/-- Go escapes that JSON shares: for an ASCII byte outside the finding's class, `strconv.Quote`'s
-escape reads back as the byte. -/
-theorem dec_goEscASCII {c : UInt8} (hc : c.toNat < 0x80)
-    (hok : ¬ ((c.toNat < 0x20 ∧ c.toNat ≠ 8 ∧ c.toNat ≠ 9 ∧ c.toNat ≠ 10 ∧ c.toNat ≠ 12 ∧ c.toNat ≠ 13) ∨ c.toNat = 0x7F))
-    (X : Bytes) :
-    dec .s0 (goEscASCII c ++ X) = (dec .s0 X).map fun p => (c :: p.1, p.2) := by
-  unfold goEscASCII
-  simp only
-  split
-  · rename_i h
-    rcases h with h | h
-    · have := eq_of_toNat (by decide) h; subst this; rfl
-    · have := eq_of_toNat (by decide) h; subst this; rfl
-  · split
-    · rename_i h1 h2
-      have hp : Plain c := by
-        refine ⟨?_, ?_, by omega⟩
-        · intro e; subst e; exact h1 (Or.inl (by decide))
-        · intro e; subst e; exact h1 (Or.inr (by decide))
-      exact dec_plain_cons hp X
-    · split
-      · omega
-      · split
-        · rename_i h; have := eq_of_toNat (by decide) h; subst this; rfl
-        · split
-          · rename_i h; have := eq_of_toNat (by decide) h; subst this; rfl
-          · split
-            · rename_i h; have := eq_of_toNat (by decide) h; subst this; rfl
-            · split
-              · rename_i h; have := eq_of_toNat (by decide) h; subst this; rfl
-              · split
-                · rename_i h; have := eq_of_toNat (by decide) h; subst this; rfl
-                · omega
-
-/-! #### the two quoting routines, read back by the JSON string reader -/
+/-! #### the quoting routine, read back by the JSON string reader -/
 
 theorem decodeRune_ascii {c : UInt8} (h : c.toNat < 0x80) (r : Bytes) :
     decodeRune (c :: r) = some (c.toNat, 1) := by
@@ -342,76 +307,6 @@ theorem dec_jsonStr : ∀ (m : Bytes) (cp : Bool) (k : Nat) (rest : Bytes), Cont
             · simp only [jsonStrGo, hx, if_false, hd, hls, List.cons_append]
               rw [dec_plain_cons (plain_of_ge (by omega)), hY]; rfl
             · simp only [sanitizeGo, hd, hs, if_true]
-
-/-- **`strconv.Quote` outside the class reads back as the sanitised message.** -/
-theorem dec_goQuote (isPrint : Nat → Bool) : ∀ (m : Bytes) (cp : Bool) (k : Nat) (rest : Bytes),
-    ContPrefix k m → goQuoteBadGo isPrint k m = false →
-    ∃ Y, dec .s0 (goQuoteGo isPrint cp k m ++ QUOTE :: rest) = some (Y, rest) ∧
-      sanitizeGo k m = (if cp then Y else m.take k ++ Y) := by
-  intro m
-  induction m with
-  | nil =>
-    intro cp k rest _ _
-    refine ⟨[], ?_, ?_⟩
-    · simp only [goQuoteGo, List.nil_append]; rfl
-    · cases cp <;> simp [sanitizeGo]
-  | cons c r ih =>
-    intro cp k rest hk hbad
-    cases k with
-    | succ k =>
-      obtain ⟨hc, hk⟩ := hk
-      simp only [goQuoteBadGo] at hbad
-      cases cp with
-      | true =>
-        obtain ⟨Y, hY, hs⟩ := ih true k rest hk hbad
-        refine ⟨c :: Y, ?_, ?_⟩
-        · simp only [goQuoteGo, if_true, List.cons_append]
-          rw [dec_plain_cons (plain_of_ge hc.1), hY]; rfl
-        · simp only [sanitizeGo, hs, if_true]
-      | false =>
-        obtain ⟨Y, hY, hs⟩ := ih false k rest hk hbad
-        refine ⟨Y, ?_, ?_⟩
-        · simp only [goQuoteGo, Bool.false_eq_true, if_false]; exact hY
-        · simp only [sanitizeGo, hs, Bool.false_eq_true, if_false, List.take_succ_cons, List.cons_append]
-    | zero =>
-      have goal0 : ∀ Y, (if cp = true then Y else (c :: r).take 0 ++ Y) = Y := by
-        intro Y; cases cp <;> simp
-      simp only [goal0]
-      simp only [goQuoteBadGo] at hbad
-      by_cases hx : c.toNat < 0x80
-      · simp only [hx, if_true, Bool.or_eq_false_iff, decide_eq_false_iff_not] at hbad
-        obtain ⟨Y, hY, hs⟩ := ih true 0 rest trivial hbad.2
-        refine ⟨c :: Y, ?_, ?_⟩
-        · simp only [goQuoteGo, hx, if_true, List.append_assoc]
-          rw [dec_goEscASCII hx hbad.1, hY]; rfl
-        · simp only [sanitizeGo, decodeRune_ascii hx]
-          simp only [Nat.sub_self, hs, if_true]
-      · simp only [hx, if_false] at hbad
-        cases hd : decodeRune (c :: r) with
-        | none => simp [hd] at hbad
-        | some p =>
-          obtain ⟨rune, w⟩ := p
-          simp only [hd, Bool.or_eq_false_iff, Bool.and_eq_false_iff, Bool.not_eq_false',
-            decide_eq_false_iff_not, Nat.not_le] at hbad
-          obtain ⟨hcont, henc, hge, hlt, hsur, hw⟩ := decodeRune_multi (by omega) hd
-          cases hp : isPrint rune with
-          | true =>
-            obtain ⟨Y, hY, hs⟩ := ih true (w - 1) rest hcont hbad.2
-            refine ⟨c :: Y, ?_, ?_⟩
-            · simp only [goQuoteGo, hx, if_false, hd, hp, if_true, List.cons_append]
-              rw [dec_plain_cons (plain_of_ge (by omega)), hY]; rfl
-            · simp only [sanitizeGo, hd, hs, if_true]
-          | false =>
-            have hsmall : rune < 0x10000 := by
-              rcases hbad.1 with h | h
-              · rw [hp] at h; cases h
-              · exact h
-            obtain ⟨Y, hY, hs⟩ := ih false (w - 1) rest hcont hbad.2
-            refine ⟨utf8enc rune ++ Y, ?_, ?_⟩
-            · simp only [goQuoteGo, hx, if_false, hd, hp, Bool.false_eq_true, hsmall, if_true,
-                List.cons_append, List.append_assoc]
-              rw [dec_u4 rune hsmall hsur, hY]; rfl
-            · simp only [sanitizeGo, hd, hs, Bool.false_eq_true, if_false, henc, List.cons_append]
 
 /-! #### the whole record -/
 
@@ -506,15 +401,14 @@ theorem recordOK_of_body (body ts m : Bytes) (lvl : Nat) (hts : TsPlain ts)
 
 /-! #### the property -/
 
-/-- **C37 at full strength**, for a given quoting routine: for every timestamp text, level and message
-(any byte string), what is written is exactly one line holding a JSON object whose `timestamp`,
-`level` and `message` fields decode to the record's time text, level and sanitised message. -/
-def LogLineJSON_full (q : Quoter) (isPrint : Nat → Bool) : Prop :=
+/-- **C37 at full strength**: for every timestamp text, level and message (any byte string), what is
+written is exactly one line holding a JSON object whose `timestamp`, `level` and `message` fields decode
+to the record's time text, level and sanitised message. -/
+def LogLineJSON_full : Prop :=
   ∀ (ts : Bytes) (lvl : Nat) (m : Bytes), TsPlain ts →
-    recordOK (lineOf (quoteWith q isPrint m) ts lvl) ts lvl m = true
+    recordOK (lineOf (jsonString m) ts lvl) ts lvl m = true
 
-/-- The property holds when the message goes through `encoding/json`. -/
-theorem full_jsonMarshal (isPrint : Nat → Bool) : LogLineJSON_full .jsonMarshal isPrint := by
+theorem log_line_json : LogLineJSON_full := by
   intro ts lvl m hts
   apply recordOK_of_body (jsonStrGo true 0 m) ts m lvl hts
   intro rest
@@ -522,60 +416,14 @@ theorem full_jsonMarshal (isPrint : Nat → Bool) : LogLineJSON_full .jsonMarsha
   simp only [if_true] at hs
   rw [hY, sanitize, hs]
 
-/-- With `strconv.Quote` it holds for every message outside the decidable class `goQuoteNonJSON`. -/
-theorem strconvQuote_partial (isPrint : Nat → Bool) (ts : Bytes) (lvl : Nat) (m : Bytes)
-    (hts : TsPlain ts) (hclass : goQuoteNonJSON isPrint m = false) :
-    recordOK (lineOf (quoteWith .strconvQuote isPrint m) ts lvl) ts lvl m = true := by
-  apply recordOK_of_body (goQuoteGo isPrint true 0 m) ts m lvl hts
-  intro rest
-  obtain ⟨Y, hY, hs⟩ := dec_goQuote isPrint m true 0 rest trivial hclass
-  simp only [if_true] at hs
-  rw [hY, sanitize, hs]
-
 /-- a concrete timestamp text: `2024-02-29T12:00:00Z` -/
 def tsSample : Bytes := [50,48,50,52,45,48,50,45,50,57,84,49,50,58,48,48,58,48,48,90]
 
-/-- **Counterexample on the pinned tree's routine**: the one-byte message BEL (`"\a"`) — and likewise
-`\x01` and the invalid byte `\xff` — gives a record that is not JSON, whatever `IsPrint` says. -/
-theorem strconvQuote_witness (isPrint : Nat → Bool) : ¬ LogLineJSON_full .strconvQuote isPrint := by
-  intro h
-  have h1 := h tsSample 2 [7] (by decide)
-  have e : quoteWith .strconvQuote isPrint [7] = [34, 92, 97, 34] := rfl
-  rw [e] at h1
-  revert h1; decide
-
-theorem strconvQuote_witness_x01 (isPrint : Nat → Bool) :
-    recordOK (lineOf (quoteWith .strconvQuote isPrint [1]) tsSample 2) tsSample 2 [1] = false := by
-  have e : quoteWith .strconvQuote isPrint [1] = [34, 92, 120, 48, 49, 34] := rfl
-  rw [e]; decide
-
-theorem strconvQuote_witness_xff (isPrint : Nat → Bool) :
-    recordOK (lineOf (quoteWith .strconvQuote isPrint [255]) tsSample 2) tsSample 2 [255] = false := by
-  have e : quoteWith .strconvQuote isPrint [255] = [34, 92, 120, 102, 102, 34] := rfl
-  rw [e]; decide
-
-/-- For any routine: a record is right, or the routine is `strconv.Quote` and the message is in the class. -/
-theorem classified (q : Quoter) (isPrint : Nat → Bool) (ts : Bytes) (lvl : Nat) (m : Bytes) (hts : TsPlain ts) :
-    recordOK (lineOf (quoteWith q isPrint m) ts lvl) ts lvl m = true ∨
-    (q = .strconvQuote ∧ goQuoteNonJSON isPrint m = true) := by
-  cases q with
-  | jsonMarshal => exact Or.inl (full_jsonMarshal isPrint ts lvl m hts)
-  | strconvQuote =>
-    cases hc : goQuoteNonJSON isPrint m with
-    | false => exact Or.inl (strconvQuote_partial isPrint ts lvl m hts hc)
-    | true => exact Or.inr ⟨rfl, rfl⟩
-
 /-! #### ties to the current source (facts regenerated by tools/xlate/c37) -/
 
-theorem current_stdout (isPrint : Nat → Bool) (ts : Bytes) (lvl : Nat) (m : Bytes) (hts : TsPlain ts) :
-    recordOK (lineOf (quoteWith MtxVerif.Gen.C37.stdoutQuoter isPrint m) ts lvl) ts lvl m = true ∨
-    (MtxVerif.Gen.C37.stdoutQuoter = .strconvQuote ∧ goQuoteNonJSON isPrint m = true) :=
-  classified _ isPrint ts lvl m hts
-
-theorem current_file (isPrint : Nat → Bool) (ts : Bytes) (lvl : Nat) (m : Bytes) (hts : TsPlain ts) :
-    recordOK (lineOf (quoteWith MtxVerif.Gen.C37.fileQuoter isPrint m) ts lvl) ts lvl m = true ∨
-    (MtxVerif.Gen.C37.fileQuoter = .strconvQuote ∧ goQuoteNonJSON isPrint m = true) :=
-  classified _ isPrint ts lvl m hts
+/-- both destinations quote the message with `encoding/json` -/
+theorem tie_stdout : MtxVerif.Gen.C37.stdoutQuoter = .jsonMarshal := rfl
+theorem tie_file : MtxVerif.Gen.C37.fileQuoter = .jsonMarshal := rfl
 
 /-! #### spec adequacy: the record reader only accepts single lines -/
 
@@ -756,14 +604,13 @@ example : sanitize [0x61, 0xFF, 0xC3, 0xA9, 0xE2, 0x82] = [0x61, 0xEF,0xBF,0xBD,
 -- json.Marshal("a\"\n<\x01\xff") = "a\"\n\u003c\u0001\ufffd"
 example : jsonString [0x61, 0x22, 0x0A, 0x3C, 0x01, 0xFF] =
     [34, 0x61, 92,34, 92,110, 92,117,48,48,51,99, 92,117,48,48,48,49, 92,117,102,102,102,100, 34] := by decide
--- the same message through strconv.Quote: "a\"\n<\x01\xff"
-example : goQuote (fun _ => true) [0x61, 0x22, 0x0A, 0x3C, 0x01, 0xFF] =
-    [34, 0x61, 92,34, 92,110, 0x3C, 92,120,48,49, 92,120,102,102, 34] := by decide
-example : goQuoteNonJSON (fun _ => true) [0x61, 0x22, 0x0A, 0x3C] = false := by decide
-example : goQuoteNonJSON (fun _ => true) [0x61, 0x0B] = true := by decide
--- U+0085 (not printable): strconv.Quote writes \u0085, which IS JSON and reads back as C2 85
-example : recordOK (lineOf (goQuote (fun r => r != 0x85) [0xC2, 0x85]) tsSample 4) tsSample 4 [0xC2, 0x85] = true := by decide
--- a surrogate pair escape is understood by the reader
+-- regressions: what `strconv.Quote` wrote for BEL, \x01 and the invalid byte \xff is rejected by the reader
+example : parseLine (lineOf [34, 92, 97, 34] tsSample 2) = none := by decide
+example : parseLine (lineOf [34, 92, 120, 48, 49, 34] tsSample 2) = none := by decide
+example : parseLine (lineOf [34, 92, 120, 102, 102, 34] tsSample 2) = none := by decide
+example : recordOK (lineOf (jsonString [7, 1, 255]) tsSample 2) tsSample 2 [7, 1, 255] = true := by decide
+-- \u0085 (valid JSON) reads back as C2 85; a surrogate pair escape is understood by the reader
+example : dec .s0 [92,117,48,48,56,53, 34] = some ([0xC2, 0x85], []) := by decide
 example : dec .s0 [92,117,100,56,51,100, 92,117,100,101,48,48, 34] = some ([0xF0,0x9F,0x98,0x80], []) := by decide
 
 end MtxVerif.C37
